@@ -98,7 +98,7 @@ func (s *BSchema) bFrom(ty *BType, j any, t reflect.Type) (reflect.Value, error)
 	}
 	str, _ := j.(string)
 	switch ty.T {
-	case "uint", "nat", "int":
+	case "uint", "nat", "int", "varuint":
 		n, ok := new(big.Int).SetString(str, 10)
 		if !ok {
 			return bad()
